@@ -74,6 +74,20 @@ func must(err error) {
 	}
 }
 
+func (c *cfgSpec) nTCP() int {
+	if c.TCPClients != 0 {
+		return c.TCPClients
+	}
+	return c.Clients
+}
+
+func (c *cfgSpec) nUDP() int {
+	if c.UDPClients != 0 {
+		return c.UDPClients
+	}
+	return c.Clients
+}
+
 // ---------------------------------------------------------------------------
 // Specifications (JSON-able; what replay files carry).
 
@@ -311,6 +325,10 @@ type cfgSpec struct {
 	DefaultTCP string      `json:"defaultTCPClientName"`
 	DefaultUDP string      `json:"defaultUDPClientName"`
 	Clients    int         `json:"clients"` // client maps hold c0..c(Clients-1)
+	// TCPClients / UDPClients, when non-zero, give the two client maps different sizes (a client that only
+	// speaks one of the protocols is in one map only)
+	TCPClients int `json:"tcpClients,omitempty"`
+	UDPClients int `json:"udpClients,omitempty"`
 }
 
 func (c *cfgSpec) key() string {
@@ -326,6 +344,9 @@ func (c *cfgSpec) shape() string {
 	d := ""
 	if c.DefaultTCP != "c0" || c.DefaultUDP != "c0" {
 		d = fmt.Sprintf(" default(tcp=%q,udp=%q,clients=%d)", c.DefaultTCP, c.DefaultUDP, c.Clients)
+		if c.TCPClients != 0 || c.UDPClients != 0 {
+			d = fmt.Sprintf(" default(tcp=%q,udp=%q,tcpClients=%d,udpClients=%d)", c.DefaultTCP, c.DefaultUDP, c.nTCP(), c.nUDP())
+		}
 	}
 	return "routes[" + strings.Join(s, " ; ") + "]" + d
 }
